@@ -354,11 +354,30 @@ def reset_strategy(tier):
         "end": st.sampled_from([None, None, 2, 4, 60]),
         "pause_at": st.one_of(st.none(), st.integers(1, 12)),
         "twice": st.booleans(),
+        # process history: how many events were created in this interpreter before the model is built (None: whatever the worker did)
+        "pad": st.sampled_from([None, None, 0, 5, 8, 9, 95, 98, 99, 995, 998]),
     })
 
 
 def proj(log):
     return [(e[1], e[2], e[3]) for e in log if e[0] == "D"]
+
+
+def position_counter(pad):
+    """Varies 'what was built earlier in the process': restart the global creation counter (public API) and create `pad` unrelated
+    events, so that the model's own events get creation ids around a chosen value (e.g. straddling 9/10 or 99/100)."""
+    if pad is None:
+        return
+    from happysimulator import Entity, Event, Instant
+    from happysimulator.core.event import reset_event_counter
+
+    class _Nobody(Entity):
+        def handle_event(self, event):
+            return None
+    nobody = _Nobody("nobody")
+    reset_event_counter()
+    for _ in range(int(pad)):
+        Event(time=Instant(0), event_type="pad", target=nobody)
 
 
 def execute_reset(case):
@@ -367,8 +386,10 @@ def execute_reset(case):
     prog["initial"] = [dict(ie, cancel=False, hooks=[]) for ie in prog["initial"]]
     r = Result()
     end_ns = None if case["end"] is None else case["end"] * TICK
+    position_counter(case.get("pad"))
     plain = RealRun(prog, end_ns).run()
     want = proj(plain.log)
+    position_counter(case.get("pad"))
     rr = RealRun(prog, end_ns)
     ctl = rr.sim.control
     if case.get("pause_at"):
@@ -423,6 +444,7 @@ OBLIGATIONS = [
                "payloads), driven by scripts with 2-8 pause requests and 4-16 step(1..3)/resume actions; same oracle; non-trivial as above"),
     Obligation("reset", reset_strategy, execute_reset, {"quick": 2000, "thorough": 80000},
                "stateless immediate-handler programs (no hooks, no cancellation), run to completion or to an EventCountBreakpoint, then "
-               "reset() + run() once or twice; the (time, entity, kind) delivery sequence must equal the plain run's; non-trivial = the "
+               "reset() + run() once or twice, with a generated number of unrelated events created earlier in the process (so creation ids "
+               "straddle 9/10, 99/100, 999/1000); the (time, entity, kind) delivery sequence must equal the plain run's; non-trivial = the "
                "sequence has a same-timestamp tie and >= 3 deliveries"),
 ]
